@@ -326,8 +326,9 @@ func Universes4(r *rand.Rand, n int) []Universe4 {
 	}
 	specs := []spec{
 		{"chain", 255, 252, 251},
-		{"pairs", 255, 0, 255},
 		{"chain", 3, 4, 5},
+		{"pairs", 12, 0, 15},
+		{"pairs", 255, 0, 255},
 		{"chain", 255, 254, 253},
 		{"pairs", 252, 251, 255},
 		{"chain", 0, 1, 255},
